@@ -15,7 +15,7 @@ PROP = "C11"
 RULE = ("cases = linear class variant x D x N odd/even x L x dt in [1e-4,1e6] x coefficient draw (sign-flipped draws are generated and classified outside); states = white "
         "noise, checkerboard+noise, constants, Nyquist-free noise at amplitudes 1e-8..1e3; distinct = (monitor, class, flags, D, N parity, dt regime, state class); "
         "non-trivial = non-constant state")
-REQUIRED = {"non_amplification": {"quick": 300, "thorough": 2000}, "strict_decay": {"quick": 20, "thorough": 150}, "norm_preserved": {"quick": 40, "thorough": 300},
+REQUIRED = {"non_amplification": {"quick": 300, "thorough": 2000}, "strict_decay": {"quick": 20, "thorough": 100}, "norm_preserved": {"quick": 40, "thorough": 300},
             "wave_energy": {"quick": 10, "thorough": 60}, "monotone_history": {"quick": 40, "thorough": 300}}
 ASSUMPTIONS = ["applicability (Re sigma <= 0 on all grid modes) is classified with the model's symbol, amplifying configurations are counted outside_precondition"]
 AMBIENT = True            # thorough tier: the repository's own test-suite runs under this property's general monitor (rv/ambient.py)
